@@ -5,6 +5,7 @@
 package wire
 
 import (
+	"golibcheck/internal/bits"
 	"golibcheck/internal/paths"
 	"fmt"
 	"go/ast"
@@ -673,7 +674,7 @@ func (w *walker) stmt(s ast.Stmt, rest []ast.Stmt) (nodes []Node, stop bool) {
 			out = append(out, ns...)
 		}
 		out = append(out, w.expr(v.Cond, nil, "", false, rest)...)
-		n := &If{Pos: v.Pos(), Cond: v.Cond, Fn: w.c}
+		n := &If{Pos: v.Pos(), Cond: w.flagCond(v.Cond), Fn: w.c}
 		n.Then = w.block(v.Body.List)
 		if v.Else != nil {
 			ns, _ := w.stmt(v.Else, nil)
@@ -1460,6 +1461,14 @@ func (w *walker) call(v *ast.CallExpr, out *[]Node, outer bool, bind interface{}
 						*out = append(*out, &Nested{Pos: v.Pos(), Frame: kind, Body: []Node{cn}, Fn: w.c})
 						return
 					}
+					// a fixed-size buffer assembled in place (SetBytesLong(buf[:], off, this.Sum), ...) and
+					// written in one go: the byte-level interpreter says which field's bytes sit where
+					if kind == "Bytes" {
+						if prims := w.bufferPrims(v); prims != nil {
+							*out = append(*out, prims...)
+							return
+						}
+					}
 					// a buffer filled by one of two producers, chosen by an earlier if/else
 					// (`if c { b = encodeA() } else { b = encodeB() }; ...; out.WriteBytes(b)`): the
 					// write stands for that choice (the condition keeps its meaning from where it was
@@ -1472,6 +1481,17 @@ func (w *walker) call(v *ast.CallExpr, out *[]Node, outer bool, bind interface{}
 						*out = append(*out, &If{Pos: v.Pos(), Cond: cond, Then: mk(pa), Else: mk(pb), Fn: w.c})
 						return
 					}
+				}
+			}
+			// a tag local set from one test (`var tag byte; if C { tag = 6 }; out.WriteByte(tag)`):
+			// the write stands for `if C { WriteByte(6) } else { WriteByte(0) }`
+			if p.Const == nil && len(v.Args) == 1 {
+				if cond, k, zero := w.flagLocal(v.Args[0]); cond != nil {
+					pt, pf := *p, *p
+					pt.Const, pf.Const = k, zero
+					pt.Label, pf.Label = "", ""
+					*out = append(*out, &If{Pos: v.Pos(), Cond: cond, Then: []Node{&pt}, Else: []Node{&pf}, Fn: w.c})
+					return
 				}
 			}
 			// WriteBool(b) with b a boolean variable/expression: the same as
@@ -1701,15 +1721,45 @@ func (x *Extractor) Dump(ns []Node, indent string) string {
 // countDown: `for n := E; n > 0; n--` (also n != 0, 0 < n, n -= 1) runs E times; returns the counter
 // identifier (its initial value is what the init statement bound it to).
 func countDown(f *ast.ForStmt) ast.Expr {
+	be, ok := ast.Unparen(f.Cond).(*ast.BinaryExpr)
+	if !ok {
+		return nil
+	}
+	if f.Init == nil {
+		// for ; remaining > 0; remaining-- : the counter was bound before the loop
+		var cid *ast.Ident
+		if x, ok := ast.Unparen(be.X).(*ast.Ident); ok {
+			cid = x
+		} else if y, ok := ast.Unparen(be.Y).(*ast.Ident); ok {
+			cid = y
+		}
+		if cid == nil {
+			return nil
+		}
+		isC := func(e ast.Expr) bool { x, ok := ast.Unparen(e).(*ast.Ident); return ok && x.Name == cid.Name }
+		isZ := func(e ast.Expr) bool { b, ok := ast.Unparen(e).(*ast.BasicLit); return ok && b.Value == "0" }
+		if !(((be.Op == token.GTR || be.Op == token.NEQ) && isC(be.X) && isZ(be.Y)) || (be.Op == token.LSS && isZ(be.X) && isC(be.Y))) {
+			return nil
+		}
+		switch p := f.Post.(type) {
+		case *ast.IncDecStmt:
+			if p.Tok == token.DEC && isC(p.X) {
+				return cid
+			}
+		case *ast.AssignStmt:
+			if p.Tok == token.SUB_ASSIGN && len(p.Lhs) == 1 && len(p.Rhs) == 1 && isC(p.Lhs[0]) {
+				if b, ok := ast.Unparen(p.Rhs[0]).(*ast.BasicLit); ok && b.Value == "1" {
+					return cid
+				}
+			}
+		}
+		return nil
+	}
 	init, ok := f.Init.(*ast.AssignStmt)
 	if !ok || len(init.Lhs) != 1 || len(init.Rhs) != 1 {
 		return nil
 	}
 	id, ok := init.Lhs[0].(*ast.Ident)
-	if !ok {
-		return nil
-	}
-	be, ok := ast.Unparen(f.Cond).(*ast.BinaryExpr)
 	if !ok {
 		return nil
 	}
@@ -1749,4 +1799,374 @@ func countDown(f *ast.ForStmt) ast.Expr {
 		}
 	}
 	return nil
+}
+
+// bufferPrims: `out.WriteBytes(buf)` where buf is a local buffer of fixed size that the function filled
+// in place before this call. The function body is interpreted at bit level (E2) with every field of
+// the receiver standing for a named input; the buffer must come out as a sequence of whole fields in
+// big-endian byte order (constants allowed in between). The write then reads as the corresponding
+// sequence of primitive writes, one per field. nil: not such a buffer (the caller falls back).
+func (w *walker) bufferPrims(call *ast.CallExpr) []Node {
+	if len(call.Args) != 1 || w.c.FI == nil || w.c.FI.Decl.Body == nil {
+		return nil
+	}
+	arg := ast.Unparen(call.Args[0])
+	if se, ok := arg.(*ast.SliceExpr); ok && se.Low == nil && se.High == nil {
+		arg = ast.Unparen(se.X)
+	}
+	id, ok := arg.(*ast.Ident)
+	if !ok {
+		return nil
+	}
+	if obj := w.c.Info.ObjectOf(id); obj == nil || !isLocalVar(obj) {
+		return nil
+	}
+	info := w.c.Info
+	fields := map[string]ast.Expr{}
+	ip := &bits.Interp{P: w.x.P}
+	ip.Sel = func(sel *ast.SelectorExpr) *bits.Value {
+		lbl := w.x.canonLabel(w.c, sel)
+		if !isFieldLabel(lbl) {
+			return nil
+		}
+		t := info.TypeOf(sel)
+		b, ok := t.Underlying().(*types.Basic)
+		if !ok {
+			return nil
+		}
+		width := 0
+		signed := false
+		switch b.Kind() {
+		case types.Int8, types.Uint8, types.Bool:
+			width = 8
+		case types.Int16, types.Uint16:
+			width = 16
+		case types.Int32, types.Uint32, types.Float32:
+			width = 32
+		case types.Int64, types.Uint64, types.Int, types.Uint, types.Float64:
+			width = 64
+		default:
+			return nil
+		}
+		if b.Info()&types.IsInteger != 0 && b.Info()&types.IsUnsigned == 0 {
+			signed = true
+		}
+		if _, seen := fields[lbl]; !seen {
+			fields[lbl] = sel
+		}
+		return &bits.Value{V: bits.Input(lbl, width), Sign: signed}
+	}
+	var captured *bits.Value
+	ip.CallHook = func(f *bits.Frame, c *ast.CallExpr) (*bits.Value, bool) {
+		sel, ok := c.Fun.(*ast.SelectorExpr)
+		if !ok {
+			return nil, false
+		}
+		if tv, ok := f.Info().Types[sel.X]; !ok || !w.x.IsStream(tv.Type) {
+			return nil, false
+		}
+		if c == call {
+			captured = ip.Eval(f, c.Args[0], nil)
+		}
+		return &bits.Value{V: bits.Zero(1)}, true
+	}
+	fr := ip.NewFrame(w.c.FI)
+	for _, st := range w.c.FI.Decl.Body.List {
+		if fr.Err() != "" || captured != nil {
+			break
+		}
+		if _, isRet := st.(*ast.ReturnStmt); isRet {
+			break
+		}
+		ip.Exec(fr, st)
+	}
+	if captured == nil || captured.B == nil || captured.B.Len <= 0 || captured.B.Len > 256 {
+		return nil
+	}
+	// segment the cells into whole fields
+	type seg struct {
+		label string
+		width int // bytes
+	}
+	var segs []seg
+	n := captured.B.Len
+	for i := 0; i < n; {
+		cell, has := captured.B.Cell(i)
+		if !has {
+			return nil
+		}
+		lbl, byteIdx, ok := cellOfInput(cell)
+		if !ok {
+			return nil
+		}
+		// a field starts with its most significant byte: byteIdx+1 bytes follow in descending order
+		width := byteIdx + 1
+		if i+width > n {
+			return nil
+		}
+		for k := 1; k < width; k++ {
+			c2, has := captured.B.Cell(i + k)
+			if !has {
+				return nil
+			}
+			l2, b2, ok := cellOfInput(c2)
+			if !ok || l2 != lbl || b2 != byteIdx-k {
+				return nil
+			}
+		}
+		segs = append(segs, seg{lbl, width})
+		i += width
+	}
+	var out []Node
+	for _, sg := range segs {
+		fe := fields[sg.label]
+		if fe == nil {
+			return nil
+		}
+		b, _ := info.TypeOf(fe).Underlying().(*types.Basic)
+		if b == nil {
+			return nil
+		}
+		declared := 0
+		switch b.Kind() {
+		case types.Int8, types.Uint8, types.Bool:
+			declared = 1
+		case types.Int16, types.Uint16:
+			declared = 2
+		case types.Int32, types.Uint32, types.Float32:
+			declared = 4
+		default:
+			declared = 8
+		}
+		kind := ""
+		switch {
+		case b.Kind() == types.Float64 && sg.width == 8:
+			kind = "Double"
+		case b.Kind() == types.Float32 && sg.width == 4:
+			kind = "Float"
+		case sg.width == 1:
+			kind = "Byte"
+		case sg.width == 2:
+			kind = "Short"
+		case sg.width == 3:
+			kind = "Int3"
+		case sg.width == 4:
+			kind = "Int"
+		case sg.width == 5:
+			kind = "Long5"
+		case sg.width == 8:
+			kind = "Long"
+		default:
+			return nil
+		}
+		if sg.width > declared {
+			return nil
+		}
+		out = append(out, &Prim{Pos: call.Pos(), Kind: kind, Call: call, Arg: fe, Label: sg.label, Fn: w.c})
+	}
+	return out
+}
+
+// cellOfInput: the 8-bit cell is exactly byte k (bits 8k..8k+7, in order) of one named input.
+func cellOfInput(cell bits.Vec) (string, int, bool) {
+	if len(cell) != 8 {
+		return "", 0, false
+	}
+	name := ""
+	base := -1
+	for j, b := range cell {
+		if b.Top || b.C || len(b.Terms) != 1 {
+			return "", 0, false
+		}
+		t := b.Terms[0]
+		dot := strings.LastIndex(t, ".")
+		if dot < 0 {
+			return "", 0, false
+		}
+		var idx int
+		if _, err := fmt.Sscanf(t[dot+1:], "%d", &idx); err != nil {
+			return "", 0, false
+		}
+		if j == 0 {
+			if idx%8 != 0 {
+				return "", 0, false
+			}
+			name, base = t[:dot], idx
+		} else if t[:dot] != name || idx != base+j {
+			return "", 0, false
+		}
+	}
+	return name, base / 8, true
+}
+
+// flagLocal: e is a local that is declared with the zero value and assigned exactly once more, a
+// non-zero constant K, directly in the body of an `if C { x = K }` without else: the condition C, K and
+// the zero constant. (cond == nil: not such a local.)
+func (w *walker) flagLocal(e ast.Expr) (ast.Expr, constant.Value, constant.Value) {
+	id, ok := ast.Unparen(stripConv(w.c, e)).(*ast.Ident)
+	if !ok || w.c.FI == nil || w.c.FI.Decl.Body == nil {
+		return nil, nil, nil
+	}
+	obj := w.c.Info.ObjectOf(id)
+	if obj == nil || !isLocalVar(obj) {
+		return nil, nil, nil
+	}
+	b, ok := obj.Type().Underlying().(*types.Basic)
+	if !ok || b.Info()&types.IsInteger == 0 {
+		return nil, nil, nil
+	}
+	info := w.c.Info
+	zeroDecl, other := 0, 0
+	var cond ast.Expr
+	var k constant.Value
+	var scan func(list []ast.Stmt, under *ast.IfStmt)
+	scan = func(list []ast.Stmt, under *ast.IfStmt) {
+		for _, st := range list {
+			switch v := st.(type) {
+			case *ast.DeclStmt:
+				if gd, ok := v.Decl.(*ast.GenDecl); ok {
+					for _, sp := range gd.Specs {
+						if vs, ok := sp.(*ast.ValueSpec); ok {
+							for i, nm := range vs.Names {
+								if info.Defs[nm] != obj {
+									continue
+								}
+								if i >= len(vs.Values) {
+									zeroDecl++
+								} else if tv, ok := info.Types[vs.Values[i]]; ok && tv.Value != nil && constant.Sign(constant.ToInt(tv.Value)) == 0 {
+									zeroDecl++
+								} else {
+									other++
+								}
+							}
+						}
+					}
+				}
+			case *ast.AssignStmt:
+				for i, l := range v.Lhs {
+					lid, ok := l.(*ast.Ident)
+					if !ok || info.ObjectOf(lid) != obj {
+						continue
+					}
+					var val constant.Value
+					if len(v.Lhs) == len(v.Rhs) {
+						if tv, ok := info.Types[v.Rhs[i]]; ok && tv.Value != nil {
+							val = constant.ToInt(tv.Value)
+						}
+					}
+					switch {
+					case val == nil || (v.Tok != token.ASSIGN && v.Tok != token.DEFINE):
+						other++
+					case under == nil && constant.Sign(val) == 0:
+						zeroDecl++
+					case under != nil && under.Else == nil && under.Init == nil && constant.Sign(val) != 0 && cond == nil:
+						cond, k = under.Cond, val
+					default:
+						other++
+					}
+				}
+			case *ast.IncDecStmt:
+				if lid, ok := v.X.(*ast.Ident); ok && info.ObjectOf(lid) == obj {
+					other++
+				}
+			case *ast.IfStmt:
+				if under == nil {
+					scan(v.Body.List, v)
+					if v.Else != nil {
+						ast.Inspect(v.Else, func(m ast.Node) bool {
+							if as, ok := m.(*ast.AssignStmt); ok {
+								for _, l := range as.Lhs {
+									if lid, ok := l.(*ast.Ident); ok && info.ObjectOf(lid) == obj {
+										other++
+									}
+								}
+							}
+							return true
+						})
+					}
+				} else {
+					ast.Inspect(v, func(m ast.Node) bool {
+						if as, ok := m.(*ast.AssignStmt); ok {
+							for _, l := range as.Lhs {
+								if lid, ok := l.(*ast.Ident); ok && info.ObjectOf(lid) == obj {
+									other++
+								}
+							}
+						}
+						return true
+					})
+				}
+			case *ast.ForStmt, *ast.RangeStmt, *ast.SwitchStmt, *ast.BlockStmt:
+				ast.Inspect(v, func(m ast.Node) bool {
+					if as, ok := m.(*ast.AssignStmt); ok {
+						for _, l := range as.Lhs {
+							if lid, ok := l.(*ast.Ident); ok && info.ObjectOf(lid) == obj {
+								other++
+							}
+						}
+					}
+					return true
+				})
+			}
+		}
+	}
+	scan(w.c.FI.Decl.Body.List, nil)
+	if zeroDecl != 1 || other != 0 || cond == nil {
+		return nil, nil, nil
+	}
+	return cond, k, constant.MakeInt64(0)
+}
+
+// flagCond: a test of a flag local (x != 0, x == 0, x > 0, x == K, x != K) reads as the condition the
+// flag was set from, or its negation.
+func (w *walker) flagCond(c ast.Expr) ast.Expr {
+	be, ok := ast.Unparen(c).(*ast.BinaryExpr)
+	if !ok {
+		return c
+	}
+	x, y, op := be.X, be.Y, be.Op
+	if _, isC := w.c.Info.Types[x]; isC && w.c.Info.Types[x].Value != nil {
+		x, y = y, x
+		switch op {
+		case token.LSS:
+			op = token.GTR
+		case token.GTR:
+			op = token.LSS
+		case token.LEQ:
+			op = token.GEQ
+		case token.GEQ:
+			op = token.LEQ
+		}
+	}
+	tv, ok := w.c.Info.Types[y]
+	if !ok || tv.Value == nil {
+		return c
+	}
+	cond, k, _ := w.flagLocal(x)
+	if cond == nil {
+		return c
+	}
+	cv := constant.ToInt(tv.Value)
+	pos := true
+	switch {
+	case constant.Sign(cv) == 0 && (op == token.NEQ || (op == token.GTR && constant.Sign(k) > 0)):
+		pos = true
+	case constant.Sign(cv) == 0 && (op == token.EQL || (op == token.LEQ && constant.Sign(k) > 0)):
+		pos = false
+	case constant.Compare(cv, token.EQL, k) && op == token.EQL:
+		pos = true
+	case constant.Compare(cv, token.EQL, k) && op == token.NEQ:
+		pos = false
+	default:
+		return c
+	}
+	if pos {
+		return cond
+	}
+	n := &ast.UnaryExpr{OpPos: c.Pos(), Op: token.NOT, X: &ast.ParenExpr{Lparen: c.Pos(), X: cond, Rparen: c.End()}}
+	if t, ok := w.c.Info.Types[cond]; ok {
+		w.c.Info.Types[n] = t
+		w.c.Info.Types[n.X] = t
+	}
+	return n
 }
